@@ -91,6 +91,11 @@ CHECKS = {
    "For every configuration and every body length n in 0..=L+8 plus far-over sizes: n <= L is accepted and delivered intact with the handler reporting effective limit L, n > L is refused with 4xx, and no handler ever reports a running byte total above L.",
    "one chunk = one body frame when the request is one write < 8 KiB (measured and reported); multipart bodies have a minimum size",
    "DESIGN.md section 4/C11"),
+ "C19": ("E4", "exploration",
+   "program-grammar enumeration: every declaration that deviates from a base #[endpoint]/#[channel] declaration in <=1 (thorough <=2) of 13 dimensions plus every doc-comment shape of <=2 (thorough <=4) lines in both comment forms, emitted as Rust source by a build.rs, compiled against /repo in three styles (free functions, API trait + impl, trait stub) and compared at run time with the generator's own record",
+   "For every generated declaration, style and 6 probe versions: the real lookup_route routes exactly the declared method/path/versions with the declared operation id, body limit and content type; the real document shows the declared id, tags, deprecated, unpublished and doc text; the three styles give byte-identical documents and identical lookups; a live slice checks that declared body limits are the ones enforced.",
+   "rustc and the generator (build.rs) are trusted; declarations outside the grammar are not covered",
+   "DESIGN.md section 4/C19"),
 }
 
 NOT_YET = {
@@ -131,6 +136,7 @@ def main():
       "engines": [
         {"name": "E1", "path": "harness/src/e1.rs + harness/src/bin/e1.rs", "serves_properties": ["C01","C02","C04","C06"], "kind_free_text": "stateless explicit exploration of registration histories on the real ApiDescription/HttpRouter"},
         {"name": "E3", "path": "harness/src/live.rs + harness/src/e3.rs + harness/src/bin/e3.rs", "serves_properties": ["C16","C17","C18"], "kind_free_text": "live event explorer: real HttpServer on loopback, raw TCP client, gated handlers, in-memory slog drain; stateless replay of every history"},
+        {"name": "E4", "path": "harness/zoo/build.rs + harness/zoo/gen_c08.rs + harness/zoo/src", "serves_properties": ["C19"], "kind_free_text": "program-grammar generator: declarations / types / endpoints enumerated by a build script, compiled against /repo, checked against the generator's record"},
         {"name": "E2", "path": "harness/src/bin/c03.rs c05.rs ...", "serves_properties": ["C03","C05","C09","C10","C11","C12","C13","C14","C15","C20"], "kind_free_text": "bounded-exhaustive input enumeration against reference functions, on the real public functions"},
       ],
       "checks": checks,
